@@ -13,6 +13,7 @@ package main
 
 import (
 	"bytes"
+	"context"
 	"fmt"
 	"os"
 	"runtime"
@@ -20,6 +21,7 @@ import (
 	"strconv"
 	"strings"
 	"sync"
+	"sync/atomic"
 	"time"
 
 	NoKV "github.com/feichai0017/NoKV"
@@ -59,7 +61,10 @@ type netw struct {
 	// delayed links: messages from store a to store b are parked (neither delivered nor lost)
 	// until c.release puts them back on the wire, in their original order
 	hold [nStores + 1][nStores + 1]bool
-	held []myraft.Message
+	// same, for log replication only (MsgApp): the receiver keeps hearing heartbeats and
+	// ReadIndex answers but lags behind the log
+	holdApp [nStores + 1][nStores + 1]bool
+	held    []myraft.Message
 	// counters for the evidence
 	sent, delivered, dropped, duplicated int
 }
@@ -72,7 +77,8 @@ func (n *netw) Send(m myraft.Message) {
 		n.dropped++
 		return
 	}
-	if n.hold[storeOfPeer(m.From)][storeOfPeer(m.To)] {
+	if n.hold[storeOfPeer(m.From)][storeOfPeer(m.To)] ||
+		(n.holdApp[storeOfPeer(m.From)][storeOfPeer(m.To)] && m.Type == myraft.MsgAppend) {
 		n.held = append(n.held, m)
 		return
 	}
@@ -85,6 +91,7 @@ func (n *netw) release() {
 	n.mu.Lock()
 	defer n.mu.Unlock()
 	n.hold = [nStores + 1][nStores + 1]bool{}
+	n.holdApp = [nStores + 1][nStores + 1]bool{}
 	n.q = append(n.q, n.held...)
 	n.held = nil
 }
@@ -162,6 +169,10 @@ type call struct {
 }
 
 type kit struct {
+	maxMsg       uint64 // raft MaxSizePerMsg (= MaxCommittedSizePerReady): small values page a commit backlog over several Readys
+	pad          int    // bytes of padding in every written value
+	gates        [nStores + 1]*gate
+	asyncs       []*async
 	caseNo       int
 	disk         bool // raft logs on disk (engine.DiskStorage) so that a store can be restarted
 	restartMarks []restartMark
@@ -184,9 +195,12 @@ type kit struct {
 	quiet    bool // direct pipeline op in progress: the op itself is the event
 }
 
-func newKit(disk bool) *kit {
+func newKit(disk bool, maxMsg uint64, pad int) *kit {
 	caseNo++
-	k := &kit{caseNo: caseNo, disk: disk, peers: map[uint64]*peer.Peer{}, net: &netw{}, origins: map[*pb.RaftCmdResponse]origin{},
+	if maxMsg == 0 {
+		maxMsg = 1 << 20
+	}
+	k := &kit{caseNo: caseNo, disk: disk, maxMsg: maxMsg, pad: pad, peers: map[uint64]*peer.Peer{}, net: &netw{}, origins: map[*pb.RaftCmdResponse]origin{},
 		applied: map[[2]uint64][]string{}, nextTs: 10, acked: map[uint64][]string{}}
 	for s := 1; s <= nStores; s++ {
 		k.dbs[s] = sharedDB(s)
@@ -210,7 +224,7 @@ func (k *kit) startStore(s int) {
 			Epoch: manifest.RegionEpoch{Version: 1, ConfVersion: 1}, Peers: metaPeers}
 		cfg := &peer.Config{
 			RaftConfig: myraft.Config{ID: peerID(r, s), ElectionTick: electionTick, HeartbeatTick: 1,
-				MaxSizePerMsg: 1 << 20, MaxInflightMsgs: 256, Logger: hlib.QuietRaftLogger{}},
+				MaxSizePerMsg: k.maxMsg, MaxInflightMsgs: 256, Logger: hlib.QuietRaftLogger{}},
 			Transport: k.net, GroupID: r, Region: region,
 		}
 		if k.disk {
@@ -261,6 +275,9 @@ type restartMark struct {
 }
 
 func (k *kit) close() {
+	for s := 1; s <= nStores; s++ {
+		k.openGate(s)
+	}
 	// fail every call that is still waiting so that its goroutine ends
 	for _, c := range k.calls {
 		if c.kind == "propose" && c.regID != 0 {
@@ -361,24 +378,34 @@ func (k *kit) regKey(region uint64) []byte {
 func (k *kit) writeReq(region uint64, tag int) *pb.RaftCmdRequest {
 	k.nextTs += 10
 	ts := k.nextTs
-	return writeReqAt(k.regKey(region), region, tag, ts)
+	return writeReqAt(k.regKey(region), region, tag, ts, k.pad)
 }
 
-func tagValue(tag int) []byte { return []byte(fmt.Sprintf("t%d", tag)) }
+func tagValue(tag, pad int) []byte {
+	v := fmt.Sprintf("t%d", tag)
+	if pad > 0 {
+		v += "-" + strings.Repeat("x", pad)
+	}
+	return []byte(v)
+}
 
 func valueTag(v []byte) string {
 	if len(v) == 0 {
 		return "-"
 	}
-	return strings.TrimPrefix(string(v), "t")
+	t := strings.TrimPrefix(string(v), "t")
+	if i := strings.IndexByte(t, '-'); i >= 0 {
+		t = t[:i]
+	}
+	return t
 }
 
-func writeReqAt(key []byte, region uint64, tag int, ts uint64) *pb.RaftCmdRequest {
+func writeReqAt(key []byte, region uint64, tag int, ts uint64, pad int) *pb.RaftCmdRequest {
 	return &pb.RaftCmdRequest{
 		Header: &pb.CmdHeader{RegionId: region, RegionEpoch: &pb.RegionEpoch{Version: 1, ConfVer: 1}},
 		Requests: []*pb.Request{
 			{CmdType: pb.CmdType_CMD_PREWRITE, Cmd: &pb.Request_Prewrite{Prewrite: &pb.PrewriteRequest{
-				Mutations:   []*pb.Mutation{{Op: pb.Mutation_Put, Key: key, Value: tagValue(tag)}},
+				Mutations:   []*pb.Mutation{{Op: pb.Mutation_Put, Key: key, Value: tagValue(tag, pad)}},
 				PrimaryLock: key, StartVersion: ts, LockTtl: 3000}}},
 			{CmdType: pb.CmdType_CMD_COMMIT, Cmd: &pb.Request_Commit{Commit: &pb.CommitRequest{
 				Keys: [][]byte{key}, StartVersion: ts, CommitVersion: ts + 1}}},
@@ -425,6 +452,9 @@ func (k *kit) applier(s int) func(*pb.RaftCmdRequest) (*pb.RaftCmdResponse, erro
 		// applier calls are serialised so that the recorded event order is the order in which
 		// the state machine was read and written (a woken reader runs next to the delivering
 		// goroutine for a moment)
+		if _, w := reqTag(req); w {
+			k.gateWait(s) // a gated store applies one write per c.step
+		}
 		k.mu.Lock()
 		defer k.mu.Unlock()
 		resp, err := inner(req)
@@ -479,6 +509,139 @@ func (k *kit) event(line, observed string) {
 	k.obs = append(k.obs, observed)
 }
 
+// ---------------------------------------------------------------- gated apply
+
+// A gate makes the state machine of a store slow: every write waits in front of the applier
+// until c.step lets exactly one through (c.open removes the gate).  While an apply is held the
+// peer's ready loop is occupied, so everything that enters that store (message deliveries,
+// ticks, campaigns) runs on its own goroutine and the harness waits until each of them has
+// finished, stands at the gate, or queues behind the peer's ready lock.
+type gate struct {
+	proceed chan struct{}
+	open    chan struct{}
+}
+
+var gatingActive atomic.Int32
+
+func (k *kit) gateWait(s int) {
+	g := k.gates[s]
+	if g == nil {
+		return
+	}
+	select {
+	case <-g.open:
+		return
+	default:
+	}
+	select {
+	case <-g.proceed:
+	case <-g.open:
+	}
+}
+
+type async struct {
+	gid  uint64
+	done chan struct{}
+}
+
+// runOn executes fn, which enters store s, directly or - when some store is gated - on its own
+// goroutine, and returns when everything is quiet again.
+func (k *kit) runOn(s int, fn func()) {
+	if gatingActive.Load() == 0 {
+		fn()
+		return
+	}
+	a := &async{done: make(chan struct{})}
+	ready := make(chan struct{})
+	go func() {
+		a.gid = curGoid()
+		close(ready)
+		defer close(a.done)
+		defer func() { recover() }()
+		fn()
+	}()
+	<-ready
+	k.asyncs = append(k.asyncs, a)
+	k.quiesce()
+}
+
+// quiesce waits until every goroutine the harness started is finished or parked.
+func (k *kit) quiesce() {
+	deadline := time.Now().Add(stallLimit())
+	for spin := 0; ; spin++ {
+		busy := false
+		live := k.asyncs[:0]
+		for _, a := range k.asyncs {
+			select {
+			case <-a.done:
+				continue
+			default:
+			}
+			live = append(live, a)
+			if !parked(a.gid) {
+				busy = true
+			}
+		}
+		k.asyncs = live
+		if !busy {
+			return
+		}
+		if time.Now().After(deadline) {
+			stalls++
+			k.problems = append(k.problems, "stuck: a delivery into a gated store neither finished nor parked")
+			return
+		}
+		if spin < 50 {
+			runtime.Gosched()
+		} else {
+			time.Sleep(50 * time.Microsecond)
+		}
+	}
+}
+
+func (k *kit) setGate(s int) {
+	if k.gates[s] == nil {
+		k.gates[s] = &gate{proceed: make(chan struct{}), open: make(chan struct{})}
+		gatingActive.Add(1)
+	}
+}
+
+// stepGate lets one held write through and waits for the consequences.
+func (k *kit) stepGate(s int) {
+	g := k.gates[s]
+	if g == nil {
+		return
+	}
+	select {
+	case g.proceed <- struct{}{}:
+	case <-time.After(200 * time.Millisecond): // nobody stands at the gate
+	}
+	k.quiesce()
+	k.collect()
+}
+
+func (k *kit) openGate(s int) {
+	g := k.gates[s]
+	if g == nil {
+		return
+	}
+	close(g.open)
+	// everything that was queued behind the held apply runs to completion now
+	deadline := time.Now().Add(stallLimit())
+	for _, a := range k.asyncs {
+		select {
+		case <-a.done:
+		case <-time.After(time.Until(deadline)):
+			stalls++
+			k.problems = append(k.problems, "stuck: delivery did not finish after the gate was opened")
+		}
+	}
+	k.asyncs = nil
+	k.gates[s] = nil
+	gatingActive.Add(-1)
+	k.collect()
+}
+
 // ---------------------------------------------------------------- goroutine settling
 
 func curGoid() uint64 {
@@ -507,14 +670,18 @@ func parked(gid uint64) bool {
 		return false
 	}
 	state := string(rest[:j])
-	if !strings.HasPrefix(state, "select") {
-		return false
-	}
 	end := bytes.Index(rest, []byte("\n\n"))
 	if end < 0 {
 		end = len(rest)
 	}
 	body := string(rest[:end])
+	if gatingActive.Load() > 0 && strings.HasPrefix(state, "sync.Mutex.Lock") {
+		// queued behind a ready loop that is held at a gate (only while a gate exists)
+		return strings.Contains(body, "peer.(*Peer).processReady")
+	}
+	if !strings.HasPrefix(state, "select") {
+		return false
+	}
 	lines := strings.Split(body, "\n")
 	if len(lines) < 2 {
 		return false
@@ -522,7 +689,8 @@ func parked(gid uint64) bool {
 	top := lines[1]
 	return strings.Contains(top, "store.(*Store).ProposeCommand") ||
 		strings.Contains(top, "peer.(*Peer).LinearizableRead") ||
-		strings.Contains(top, "utils.(*WaterMark).WaitForMark")
+		strings.Contains(top, "utils.(*WaterMark).WaitForMark") ||
+		strings.Contains(top, "main.(*kit).gateWait")
 }
 
 // A healthy tree never stalls; the first stalls of a process get a generous bound (loaded
@@ -727,6 +895,50 @@ func (k *kit) launch(kind string, s int, region uint64, tag int, req *pb.RaftCmd
 	return c
 }
 
+// replicaRead is a read through the peer API on any replica, as ReadCommand does it on the
+// leader: LinearizableRead (a follower forwards the ReadIndex request to the leader and gets
+// the leader's confirmed commit index back), WaitApplied(index), then the local state machine.
+// It is the direct test of "WaitApplied returns only when the replica has applied the index".
+func (k *kit) replicaRead(s int, region uint64) *call {
+	c := &call{w: len(k.calls) + 1, kind: "read", store: s, region: region, done: make(chan struct{})}
+	c.req = readReq(k.regKey(region), region)
+	c.state = k.raftState(region, s)
+	c.began = true
+	k.mu.Lock()
+	k.calls = append(k.calls, c)
+	k.reads = append(k.reads, &readRec{w: c.w, region: region, ackedBefore: append([]string(nil), k.acked[region]...)})
+	k.event(fmt.Sprintf("r.begin %d %d %d", s, region, c.w), "ok")
+	k.mu.Unlock()
+	p := k.peers[peerID(region, s)]
+	apply := k.applier(s)
+	ready := make(chan struct{})
+	go func() {
+		c.gid = curGoid()
+		close(ready)
+		defer close(c.done)
+		defer func() {
+			if r := recover(); r != nil {
+				c.err = fmt.Errorf("panic: %v", r)
+			}
+		}()
+		ctx, cancel := context.WithTimeout(context.Background(), 10*time.Second)
+		defer cancel()
+		idx, err := p.LinearizableRead(ctx)
+		if err == nil {
+			err = p.WaitApplied(ctx, idx)
+		}
+		if err != nil {
+			c.err = err
+			return
+		}
+		c.resp, c.err = apply(c.req)
+	}()
+	<-ready
+	k.settle(c)
+	k.collect()
+	return c
+}
+
 // collect reports every call that has returned since the last look.
 func (k *kit) collect() {
 	for _, c := range k.calls {
@@ -825,7 +1037,7 @@ func (k *kit) deliverAt(i int) bool {
 	k.net.delivered++
 	k.net.mu.Unlock()
 	st := k.stores[storeOfPeer(m.To)]
-	_ = st.Step(m)
+	k.runOn(storeOfPeer(m.To), func() { _ = st.Step(m) })
 	k.collect()
 	return true
 }
@@ -867,7 +1079,8 @@ func (k *kit) elect(r uint64) {
 			cut := k.net.iso[s]
 			k.net.mu.Unlock()
 			if !cut {
-				_ = k.peers[peerID(r, s)].Tick()
+				p := k.peers[peerID(r, s)]
+				k.runOn(s, func() { _ = p.Tick() })
 				k.collect()
 			}
 		}
